@@ -275,17 +275,17 @@ func w9CNat(n int) string { return fmt.Sprintf("%d%%nat", n) }
 // ---- fault-free run + the C09 oracle ---------------------------------------------
 
 type w9Wrun struct {
-	W         *w9RecWriter
-	OpChunks  []int      // chunks written (cumulative, header included) after each call
-	Parsed    *Container // the whole output
-	Header    *Container // what NewEncoderFor wrote
-	HdrWrites int
+	W           *w9RecWriter
+	OpChunks    []int      // chunks written (cumulative, header included) after each call
+	Parsed      *Container // the whole output
+	Header      *Container // what NewEncoderFor wrote
+	HdrWrites   int
 	ModelWrites bool // one Write for the header and four per block: the granularity the model's stateful fault run has
-	Closed    []w9Wgroup
-	Pending   [][]byte
-	Closes    []bool
-	Broken    bool // the run could not be completed (constructor error, panic, call error) or its output does not parse
-	Done      bool // every call of the history returned nil
+	Closed      []w9Wgroup
+	Pending     [][]byte
+	Closes      []bool
+	Broken      bool // the run could not be completed (constructor error, panic, call error) or its output does not parse
+	Done        bool // every call of the history returned nil
 }
 
 // w9RunFaultFree drives the history over a recording writer and evaluates the
